@@ -66,6 +66,9 @@ func debugDump(c *Ctx, what string) {
 				ret = strings.Join(rs, " ; ")
 			}
 			fmt.Printf("#%d cut=%v [%s]\n    => %s\n", i, p.Cut, strings.Join(atomStrings(p.Atoms), " ∧ "), ret)
+			if p.Ret != nil && len(p.Ret.Results) > 0 && isStringType(p.Ret.Results[0].Type()) {
+				fmt.Printf("    skel: %s\n", skelString(c.skeleton(p.Ret.Results[0], p.Env)))
+			}
 		}
 	case strings.HasPrefix(what, "dom:"):
 		fn := c.findFunc(strings.TrimPrefix(what, "dom:"))
